@@ -34,6 +34,10 @@ type c05Input struct {
 	Unroll   string `json:"unroll,omitempty"` // unset | true | false
 	// one expectation per method, registered up front with a Run callback, serves the calls of all goroutines
 	Shared bool `json:"shared,omitempty"`
+	// testify, unroll-variadic: true: every method is M(fields ...interface{}) (sole) or M(id int, fields ...any)
+	// (fixed); every goroutine passes one reused buffer (`m.M(buf...)`) and refills it for the next call, a reader
+	// goes through the record with testify's own locked API meanwhile: the record must not alias the callers' memory
+	Buffer string `json:"buffer,omitempty"`
 	Threads    [][]ConcOp `json:"threads"`
 	Seed       int        `json:"seed"`
 }
@@ -95,6 +99,21 @@ func (c05) Generate(c *Ctx) []any {
 		}
 		out = append(out, in)
 	}
+	for i := 0; i < c.Budget(2, 8); i++ {
+		in := c05Input{Template: "testify", Seed: c.Rng.Intn(1 << 30), Results: true, Unroll: "true", Buffer: []string{"sole", "fixed"}[i%2]}
+		nm := 1 + c.Rng.Intn(2)
+		in.Methods = []string{"Put", "Get"}[:nm]
+		id := 0
+		for t := 0; t < 3+c.Rng.Intn(4); t++ {
+			var ops []ConcOp
+			for j := 0; j < 150; j++ {
+				id++
+				ops = append(ops, ConcOp{Op: "call", M: c.Rng.Intn(nm), X: id})
+			}
+			in.Threads = append(in.Threads, ops)
+		}
+		out = append(out, in)
+	}
 	return out
 }
 
@@ -113,7 +132,11 @@ func (c05) Run(c *Ctx, raw json.RawMessage) Case {
 	var src strings.Builder
 	src.WriteString("package store\n\ntype Store interface {\n")
 	for _, m := range in.Methods {
-		if in.Variadic {
+		if in.Buffer == "sole" {
+			fmt.Fprintf(&src, "\t%s(fields ...interface{}) (int, error)\n", m)
+		} else if in.Buffer == "fixed" {
+			fmt.Fprintf(&src, "\t%s(id int, fields ...any) (int, error)\n", m)
+		} else if in.Variadic {
 			fmt.Fprintf(&src, "\t%s(id int, parts ...string) (int, error)\n", m)
 		} else if in.Results {
 			fmt.Fprintf(&src, "\t%s(id int, tag string) (int, error)\n", m)
@@ -216,6 +239,32 @@ func (c05) Run(c *Ctx, raw json.RawMessage) Case {
 		}
 		t.WriteString("\tfmt.Printf(\"RESULT {\\\"counts\\\":%s,\\\"sums\\\":%s,\\\"bad\\\":%d}\\n\", js(counts), js(sums), bad.Load())\n}\n\n")
 		t.WriteString("func js(xs []int) string {\n\ts := \"[\"\n\tfor i, x := range xs {\n\t\tif i > 0 { s += \",\" }\n\t\ts += strconv.Itoa(x)\n\t}\n\treturn s + \"]\"\n}\n")
+	} else if in.Buffer != "" {
+		t.WriteString("type quietT struct{}\n\nfunc (quietT) Logf(string, ...interface{})   {}\nfunc (quietT) Errorf(string, ...interface{}) {}\nfunc (quietT) FailNow()                      {}\n\n")
+		t.WriteString("func TestStress(t *testing.T) {\n\tvar bad atomic.Int64\n\tm := NewMockStore(t)\n\t_ = sort.Ints\n")
+		matchers, call := "mock.Anything, mock.Anything, mock.Anything", "buf..."
+		if in.Buffer == "fixed" {
+			matchers, call = "mock.Anything, "+matchers, "o.x, buf..."
+		}
+		for _, mn := range in.Methods {
+			fmt.Fprintf(&t, "\tm.EXPECT().%s(%s).Return(0, nil)\n", mn, matchers)
+		}
+		t.WriteString("\tvar wg, rg sync.WaitGroup\n\tstart, done := make(chan struct{}), make(chan struct{})\n\tfor _, ops := range threads {\n\t\twg.Add(1)\n\t\tgo func(ops []cop) {\n\t\t\tdefer wg.Done()\n\t\t\t<-start\n\t\t\tbuf := make([]interface{}, 3)\n\t\t\tfor _, o := range ops {\n\t\t\t\tfor i := range buf { buf[i] = o.x }\n\t\t\t\tswitch o.m {\n")
+		for i, mn := range in.Methods {
+			fmt.Fprintf(&t, "\t\t\t\tcase %d:\n\t\t\t\t\tr, err := m.%s(%s)\n\t\t\t\t\tif r != 0 || err != nil { bad.Add(1) }\n", i, mn, call)
+		}
+		t.WriteString("\t\t\t\t}\n\t\t\t}\n\t\t}(ops)\n\t}\n")
+		// the reader: testify's own assertion API, which goes through every record's arguments under testify's lock
+		fmt.Fprintf(&t, "\trg.Add(1)\n\tgo func() {\n\t\tdefer rg.Done()\n\t\t<-start\n\t\tfor {\n\t\t\tselect {\n\t\t\tcase <-done:\n\t\t\t\treturn\n\t\t\tdefault:\n\t\t\t\tm.AssertNotCalled(quietT{}, %q, -1, -1, -1, -1)\n\t\t\t}\n\t\t}\n\t}()\n", in.Methods[0])
+		t.WriteString("\tclose(start)\n\twg.Wait()\n\tclose(done)\n\trg.Wait()\n")
+		// afterwards: every record holds the three equal values of one call, no call twice
+		t.WriteString("\tseen := map[int]bool{}\n\tfor _, c := range m.Calls {\n\t\ta := c.Arguments\n\t\tif len(a) < 3 { bad.Add(1); continue }\n\t\tx, ok := a[len(a)-1].(int)\n\t\tfor _, v := range a { if vi, ok2 := v.(int); !ok2 || vi != x { ok = false } }\n\t\tif !ok || seen[x] { bad.Add(1) }\n\t\tseen[x] = true\n\t}\n")
+		fmt.Fprintf(&t, "\tcounts := make([]int, %d)\n", len(in.Methods))
+		for i, mn := range in.Methods {
+			fmt.Fprintf(&t, "\tfor _, c := range m.Calls { if c.Method == %q { counts[%d]++ } }\n", mn, i)
+		}
+		t.WriteString("\tfmt.Printf(\"RESULT {\\\"counts\\\":%s,\\\"bad\\\":%d}\\n\", js(counts), bad.Load())\n}\n\n")
+		t.WriteString("func js(xs []int) string {\n\ts := \"[\"\n\tfor i, x := range xs {\n\t\tif i > 0 { s += \",\" }\n\t\ts += strconv.Itoa(x)\n\t}\n\treturn s + \"]\"\n}\n")
 	} else {
 		t.WriteString("func TestStress(t *testing.T) {\n\tvar bad atomic.Int64\n\tm := NewMockStore(t)\n")
 		// every goroutine registers its own expectation (through EXPECT()) right before each call
@@ -259,6 +308,9 @@ func (c05) Run(c *Ctx, raw json.RawMessage) Case {
 		return Case{Oracle: fail("harness", "%v", err)}
 	}
 	tags := []string{"tmpl-" + in.Template, fmt.Sprintf("goroutines-%d", len(in.Threads))}
+	if in.Buffer != "" {
+		tags = append(tags, "reused-buffer-"+in.Buffer)
+	}
 	if in.Variadic {
 		tags = append(tags, "variadic-unroll-"+in.Unroll)
 		if in.Shared {
